@@ -379,9 +379,11 @@ func (c *ClientConn) maybeCachePrepared(request Request, raw *frame.RawFrame) {
 
 func (c *ClientConn) Closing(err error) {
 	c.closingMu.Lock()
-	c.closing = true
-	c.pending.closing(err)
+	c.closing = true // No request can be added to pending once this is set
 	c.closingMu.Unlock()
+	// Notify without holding the lock: a notified request may be retried on another connection that is closing at the
+	// same time, and two connections holding their own lock while waiting for the other's would deadlock.
+	c.pending.closing(err)
 }
 
 func (c *ClientConn) addToPending(request Request) (int16, error) {
